@@ -26,18 +26,20 @@ from fractions import Fraction
 import render
 import vlib
 import c20_util as U
+import c05_util
 from vlib import run_tlc, tlc_must_pass, run_cases
 
 # (cfg suffix, label, workers)
 PLAN = {
-    "quick": [("quick", "yaml subset, quick bounds: scalar table x 9 positions, trees of depth <= 2 x 3 scalar rotations x 6 "
-                        "layouts, streams of <= 2 documents, all strings of <= 3 of 13 number characters, all texts of <= 3 "
-                        "of 20 line forms, every single-character insertion/deletion in 2 printed documents", 3)],
-    "thorough": [("thorough_a", "yaml subset, thorough bounds: scalar table x 9 positions, trees of depth <= 2 x 8 rotations x 24 "
-                                "layouts and a seeded sample of depth-3 trees, streams of <= 3 documents, all strings of <= 4 of "
-                                "13 number characters, every single-character insertion/deletion/replacement in 6 printed "
-                                "documents", 3),
-                 ("thorough_b", "yaml subset: all texts of <= 3 of 36 line forms and of exactly 4 of 20 line forms", 3)],
+    "quick": [("quick", "yaml subset, quick bounds: scalar table (200 rows) x 10 positions, 421 trees of depth <= 2 x 4 layouts, "
+                        "streams of <= 2 documents, \"- \" + all strings of <= 3 of 13 number characters, all texts of <= 3 of "
+                        "20 line forms, every single-character insertion (23 characters) / deletion in 1 printed document", 3)],
+    "thorough": [("thorough_a", "yaml subset, thorough bounds: scalar table x 10 positions, 421 trees of depth <= 2 x 48 variants "
+                                "(24 layouts) and a sample (seeded) of 7500 depth-3 trees x 3 variants, streams of <= 3 "
+                                "documents, all strings of <= 4 of 13 number characters, every single-character insertion / "
+                                "deletion / replacement in 6 printed documents", 3),
+                 ("thorough_b", "yaml subset: all texts of <= 3 of 36 line forms (indentations 0, 1, 2, 4)", 3),
+                 ("thorough_c", "yaml subset: all texts of exactly 4 of 20 line forms (indentations 0, 2)", 3)],
 }
 
 # ---------------------------------------------------------------------------
@@ -145,6 +147,13 @@ def py_read(text):
                     raise NotJson("non-string key")
                 if k.value in out:
                     raise NotJson("duplicate key")
+                if k.style in (None, ""):
+                    try:
+                        pk = ctor.construct_object(k, deep=True)
+                    except Exception:
+                        pk = ("unconstructible",)
+                    if not (isinstance(pk, str) and pk == k.value):
+                        diffs.append(k.value)
                 out[k.value] = conv(v, seen | {id(node)})
             return out
         raise NotJson(type(node).__name__)
@@ -157,7 +166,6 @@ def py_read(text):
         return ("notjson", "number out of range")
     if not docs:
         return ("notjson", "no document")
-    # compose_all yields nothing for an empty explicit document at the very end? (it yields None nodes): keep as is
     if any(explicit):
         return ("ok", vals, diffs)
     if len(vals) != 1:
@@ -165,13 +173,23 @@ def py_read(text):
     return ("ok", vals[0], diffs)
 
 
+def _explicit(text):
+    """Does the stream use an explicit document start?"""
+    yaml = _yaml()
+    Loader = getattr(yaml, "CSafeLoader", yaml.SafeLoader)
+    return any(e.explicit for e in yaml.parse(text, Loader=Loader) if isinstance(e, yaml.DocumentStartEvent))
+
+
 # ---------------------------------------------------------------------------
 def _case(text):
     return {"k": "eval", "src": f"std.parseYaml({render.str_lit(text)})", "manifest": "single"}
 
 
-def yaml_part(chk, tier, seed, plan=None, workers=None, need=("scalar", "doc", "stream", "numsoup", "soup", "mut")):
-    """Runs the YAML-subset universes and records results in the Check `chk`."""
+def yaml_part(chk, tier, seed, plan=None, workers=None, need=("scalar", "doc", "stream", "numsoup", "soup", "mut"),
+              strict=True):
+    """Runs the YAML-subset universes and records results in the Check `chk`.
+    strict=False (demonstrations with a deliberately wrong reader only): differences between the specification
+    and PyYAML are counted instead of raised."""
     t_start = time.time()
     seen = set()
     classes = {}          # universe -> expected class -> count
@@ -184,6 +202,13 @@ def yaml_part(chk, tier, seed, plan=None, workers=None, need=("scalar", "doc", "
     def bump(t, u, cl):
         d = t.setdefault(u, {})
         d[cl] = d.get(cl, 0) + 1
+
+    spec_errors = []
+
+    def spec_err(msg):
+        if strict:
+            raise vlib.ToolError("specification error (Yaml.tla): " + msg)
+        spec_errors.append(msg)
 
     def bad(cls, what, case, expected, **more):
         sig = {"kind": "yaml-subset", "fn": "parseYaml", "class": cls}
@@ -215,22 +240,29 @@ def yaml_part(chk, tier, seed, plan=None, workers=None, need=("scalar", "doc", "
             pr = py_read(text)
             if exp["k"] == "bad":
                 if pr[0] != "err":
-                    raise vlib.ToolError(f"specification error (Yaml.tla): {text!r} is called ill-formed, PyYAML reads it: {pr}")
-                py_stats["bad_refused"] += 1
+                    spec_err(f"{text!r} is called ill-formed, PyYAML reads it: {pr}")
+                else:
+                    py_stats["bad_refused"] += 1
                 continue
             want = U.norm(U.spec_value(exp["v"]))
             if pr[0] != "ok" or not U.same_value(U.norm(pr[1]), want):
-                raise vlib.ToolError(f"specification error (Yaml.tla): {text!r} is read as {json.dumps(want)[:200]}, "
-                                     f"PyYAML + core schema: {str(pr)[:300]}")
+                spec_err(f"{text!r} is read as {json.dumps(want)[:200]}, PyYAML + core schema: {str(pr)[:300]}")
+                continue
             py_stats["agree"] += 1
             if pr[2]:
                 py_stats["yaml11_differences"] += 1
                 for s in pr[2]:
                     if not YAML11_DIFF.match(s):
-                        raise vlib.ToolError(f"specification error (Yaml.tla / core_resolve): plain scalar {s!r} in {text!r}: "
-                                             "PyYAML resolves it differently and it is not a known YAML 1.1/1.2 difference")
+                        spec_err(f"(or core_resolve) plain scalar {s!r} in {text!r}: PyYAML resolves it differently and "
+                                 "it is not a known YAML 1.1/1.2 difference")
                     diff_scalars[s] = diff_scalars.get(s, 0) + 1
             else:
+                # no 1.1/1.2 difference in this text: PyYAML's own loader (as lib/c05_util.py uses it) gives the value
+                full = c05_util.decode_yaml_all(text)
+                full = full if _explicit(text) else full[0]
+                if not U.same_value(U.norm(full), want):
+                    spec_err(f"{text!r} is read as {json.dumps(want)[:200]}, yaml.safe_load_all: {str(full)[:300]}")
+                    continue
                 py_stats["agree_with_pyyaml_own_resolution"] += 1
         t_py = time.time() - t0
         # --- the implementation --------------------------------------------------
@@ -294,8 +326,12 @@ def yaml_part(chk, tier, seed, plan=None, workers=None, need=("scalar", "doc", "
         "yaml11_vs_12_scalars_seen": dict(sorted(diff_scalars.items(), key=lambda kv: -kv[1])[:60]),
         "disagreement_classes": [{"sig": json.loads(k), "count": len(v), "example": v[0][1][:300]}
                                  for k, v in sorted(pending.items())],
+        "exhaustive_scope": "every universe of MC_Yaml.tla is enumerated completely within the bounds its label names, except "
+                            "the depth-3 trees of the thorough tier (a sample drawn by TLC from the seed)",
         "wall_s": round(time.time() - t_start, 1),
     }
+    if spec_errors:
+        chk.extra["yaml_subset"]["specification_vs_pyyaml"] = {"count": len(spec_errors), "examples": spec_errors[:10]}
     chk.assumptions.append(
         "std.parseYaml beyond JSON texts is decided on the subset of YAML 1.2 block style that spec/Yaml.tla delimits "
         "(its header lists what is outside: tabs, anchors, tags, block scalars, multi-line scalars, non-JSON flow "
